@@ -178,6 +178,10 @@ unsigned hwloc_get_closest_objs (struct hwloc_topology *topology, struct hwloc_o
   if (!src->cpuset)
     return 0;
 
+  if (src->depth < 0)
+    /* memory objects are in special levels, not in the arrays of normal levels below */
+    return 0;
+
   src_nbobjects = topology->level_nbobjects[src->depth];
   src_objs = topology->levels[src->depth];
 
